@@ -77,9 +77,13 @@ def compute_offsets(cursor, reference_zeta_mm):
         series, delta_z_mm
     )
 
-    reference_zeta_off_grid = (
-        reference_zeta_mm is not None
-        and not np.allclose(reference_zeta_mm % delta_z_mm, 0)
+    # Test the quotient, not the floating-point remainder: for steps
+    # such as 0.1 mm, 1.2 % 0.2 is 0.2 rather than 0
+    reference_quotient = (
+        None if reference_zeta_mm is None else reference_zeta_mm / delta_z_mm
+    )
+    reference_zeta_off_grid = reference_zeta_mm is not None and not np.isclose(
+        reference_quotient, round(reference_quotient), rtol=0, atol=1e-6
     )
     if reference_zeta_off_grid:
         raise ValueError(
@@ -87,7 +91,7 @@ def compute_offsets(cursor, reference_zeta_mm):
             'zeta step {} mm'.format(reference_zeta_mm, delta_z_mm)
         )
     if reference_zeta_mm is not None:
-        reference_index = int(reference_zeta_mm / delta_z_mm)
+        reference_index = int(round(reference_quotient))
     else:
         reference_index = max(head_mapping.keys())
 
